@@ -223,7 +223,7 @@ func fileSinkSpecial(pa *Path) bool {
 
 func runC08(c *Ctx) {
 	p, r := c.P, c.R
-	r.Explanation = "Decides only the structural premises of 'FileSink never loses, duplicates, reorders or tears an acknowledged event': f / BytesWritten / LastCreated are accessed only with FileSink.l held (pairwise lock-set discipline; open, rotate, reopen and pruneFiles are entered only with the lock held) and rotation and the write lie in one critical section; every file open of the sink is os.OpenFile with constant flags containing O_APPEND|O_CREATE|O_WRONLY and no O_TRUNC, and no os.Create / WriteFile / Truncate exists; success is acknowledged only after a write of exactly the event's bytes whose error was tested nil, the retry rewinds the same reader, and a second write only follows a failed first one; the destination is an *os.File (no buffering layer between acknowledgement and write(2)); os.Remove occurs only in pruning on elements of the sink's own glob, os.Rename only in rotation after the file was closed; pruning stops at the first file it cannot remove (so an older file never survives a newer one that was removed). C08.partial: a retry that writes the whole event again must have looked at how many bytes the failed attempt wrote (known finding F31: it does not — a partial first write leaves a fragment). C08.reopen: the exported Reopen always runs reopen() for a real file, and a successful reopen() ends in open() after closing a handle it still held (an external rename followed by Reopen moves the sink to the file now at the configured path). Crash atomicity, ordering across files and the retention-suffix clause are file-system / runtime behaviour and are not decided."
+	r.Explanation = "Decides only the structural premises of 'FileSink never loses, duplicates, reorders or tears an acknowledged event': f / BytesWritten / LastCreated are accessed only with FileSink.l held (pairwise lock-set discipline; open, rotate, reopen and pruneFiles are entered only with the lock held) and rotation and the write lie in one critical section; every file open of the sink is os.OpenFile with constant flags containing O_APPEND|O_CREATE|O_WRONLY and no O_TRUNC, and no os.Create / WriteFile / Truncate exists; success is acknowledged only after a write of exactly the event's bytes whose error was tested nil, the retry rewinds the same reader, and a second write only follows a failed first one; the destination is an *os.File (no buffering layer between acknowledgement and write(2)); os.Remove occurs only in pruning on elements of the sink's own glob, os.Rename only in rotation after the file was closed; pruning stops at the first file it cannot remove (so an older file never survives a newer one that was removed). C08.partial: a retry that writes the whole event again must have looked at how many bytes the failed attempt wrote (known finding F31: it does not — a partial first write leaves a fragment). C08.reopen: the exported Reopen always runs reopen() for a real file, and a successful reopen() ends in open() after closing a handle it still held (an external rename followed by Reopen moves the sink to the file now at the configured path). Crash atomicity, ordering across files and the retention-suffix clause are file-system / runtime behaviour and are not decided. C08.ack format-bytes-readonly: the bytes Event.Format handed out are only read — no store, copy into or append onto a re-slice of them."
 	r.NotDecided = []string{"crash points (whole events after a kill)", "ordering across rotated files", "retention leaving a suffix", "what the file system does with an external rename while the file is open (only the Reopen path is decided)"}
 	c.lockControls()
 	must := c.MustLocks()
@@ -363,6 +363,7 @@ func runC08(c *Ctx) {
 		r.Und("C08.names", "instance-floor", "", "os.Remove / os.Rename sites not found")
 	}
 	c.ruleRenameTarget("C08.names")
+	c.ruleFormatBytesReadOnly("C08.ack")
 	c.rulePruneHandleClosed("C08.names")
 	// the candidates come from the sink's own directory: a listing of fs.Path (the names are
 	// then filtered by C15.prune own-names), or a glob Join(Path, Sprintf(fileNamePattern(), "*"))
@@ -545,7 +546,7 @@ func (c *Ctx) rulePruneHandleClosed(rule string) {
 
 func runC13(c *Ctx) {
 	p, r := c.P, c.R
-	r.Explanation = "Decides on every path of the three stock sinks: writer.Sink and FileSink acknowledge (nil, nil) only after writing a reader over exactly the bytes Event.Format returned for the configured format (JSON when unset), once — or once more after rewinding the same reader when the first write failed — with the sink mutex held for writing, with the (last) write's error tested nil; a missing format or a failing write is an error; FileSink's /dev/null returns (nil, nil) without touching a file and stdout/stderr select os.Stdout/os.Stderr; ChannelSink.Process is one blocking select with exactly three arms — send of the very event parameter on the sink's channel -> (nil, nil), <-ctx.Done() -> (nil, ctx.Err()), <-time.After(timeout) -> (nil, non-nil) — no default and no other blocking instruction. Behaviour of the supplied io.Writer and real-time bounds are not decided. C13.ctor: NewChannelSink stores exactly its arguments after both guards. C13.format Format:reads-table: Event.Format answers from the format table itself, under Event.l. C13.recover: a recovered panic of a Writer reaches the error result. C13.file handle-closed: pruneFiles only where no path leaves a file open. C13.file nil-handle: the handle is dereferenced only where found non-nil. C13.format: no stored entry is rewritten in place."
+	r.Explanation = "Decides on every path of the three stock sinks: writer.Sink and FileSink acknowledge (nil, nil) only after writing a reader over exactly the bytes Event.Format returned for the configured format (JSON when unset), once — or once more after rewinding the same reader when the first write failed — with the sink mutex held for writing, with the (last) write's error tested nil; a missing format or a failing write is an error; FileSink's /dev/null returns (nil, nil) without touching a file and stdout/stderr select os.Stdout/os.Stderr; ChannelSink.Process is one blocking select with exactly three arms — send of the very event parameter on the sink's channel -> (nil, nil), <-ctx.Done() -> (nil, ctx.Err()), <-time.After(timeout) -> (nil, non-nil) — no default and no other blocking instruction. Behaviour of the supplied io.Writer and real-time bounds are not decided. C13.ctor: NewChannelSink stores exactly its arguments after both guards. C13.format Format:reads-table: Event.Format answers from the format table itself, under Event.l. C13.recover: a recovered panic of a Writer reaches the error result. C13.file handle-closed: pruneFiles only where no path leaves a file open. C13.file nil-handle: the handle is dereferenced only where found non-nil. C13.format: no stored entry is rewritten in place. C13.format format-bytes-readonly: no sink writes through the bytes Event.Format handed out."
 	r.NotDecided = []string{"behaviour of user-supplied io.Writers (short writes, buffering)", "real-time bounds of the timeout"}
 	c.lockControls()
 	// --- C13.writer
@@ -558,6 +559,7 @@ func runC13(c *Ctx) {
 	// "exactly the bytes stored": a sink writes the slice Format handed it after it released the event's lock —
 	// nothing rewrites a stored entry in place (C14.table / C19.table under C13)
 	c.ruleFormatTableWrites("C13.format")
+	c.ruleFormatBytesReadOnly("C13.format")
 	c.ruleRecoverResults("C13.recover", []string{PkgRoot, PkgWriter, PkgChannel}, false)
 	if fn := c.Fn("C13.file", PkgRoot, "FileSink", "Process"); fn != nil {
 		c.ruleSinkAck("C13.file", fn, "eventlogger.FileSink.l", fileSinkWriter, fileSinkSpecial)
